@@ -5,6 +5,7 @@ import inspect
 import warnings
 
 import numpy as np
+import pandas as pd
 
 from mc import harness, popgen, sim
 from mc.evidence import Partial, Reporter
@@ -96,6 +97,32 @@ def task(arg):
         for col, kind, detail in diffs:
             out.violation(f"override-changes:{col}<-{n}", {**case, "column": col, "kind": kind},
                           f"supplying the computed {n} changes {col} ({kind}) on {date_iso}: {detail}")
+        # the same substitution through the other documented data forms: a dict of Series whose row labels differ between the input
+        # columns and the fed-back column (results always carry a fresh RangeIndex), and a frame with permuted row labels - rows are
+        # persons by POSITION, so nothing may change
+        if subset.index(n) < 2:
+            nrow = len(df)
+            labelsets = {"reversed": list(range(nrow))[::-1], "offset": [100 + 3 * i for i in range(nrow)], "rotated": list(range(1, nrow)) + [0]}
+            for lname, labels in labelsets.items():
+                forms = {
+                    "dict-of-series": {c: (pd.Series(d2[c].to_numpy()) if c == n else pd.Series(d2[c].to_numpy(), index=labels)) for c in d2.columns},
+                    "frame": pd.DataFrame({c: d2[c].to_numpy() for c in d2.columns}, index=labels),
+                }
+                for fname, data in forms.items():
+                    if fname == "frame" and lname != "rotated":
+                        continue
+                    try:
+                        with warnings.catch_warnings():
+                            warnings.simplefilter("ignore")
+                            got2 = compute_taxes_and_transfers(data, p, f, targets=targets)
+                        out.step()
+                        out.count("data_form_runs")
+                        for col, kind, detail in sim.compare_results(full[targets], got2.reset_index(drop=True), keys, keys, ulps=0, check_dtype=True)[:3]:
+                            out.violation(f"override-changes-in-data-form:{fname}:{lname}", {**case, "column": col, "form": fname, "labels": lname},
+                                          f"supplying the computed {n} inside a {fname} with {lname} row labels changes {col} ({kind}) on {date_iso}: {detail}")
+                    except Exception as e:  # noqa: BLE001
+                        out.step()
+                        out.violation(f"override-raises-in-data-form:{fname}:{lname}:{type(e).__name__}", {**case, "form": fname, "labels": lname}, repr(e)[:300])
         overlap = [x for x in w if issubclass(x.category, FunctionsAndColumnsOverlapWarning)]
         named = any(f'"{n}"' in str(x.message) for x in overlap)
         if n in must_warn and not named:
